@@ -114,7 +114,10 @@ func (rp *racePass) targetField(sel *ast.SelectorExpr) bool {
 	if !ok || s.Kind() != types.FieldVal {
 		return false
 	}
-	if syncish(s.Obj().Type()) {
+	if _, isChan := s.Obj().Type().Underlying().(*types.Chan); syncish(s.Obj().Type()) && !isChan {
+		// mutexes, atomics, Once: their operations are synchronisation. A channel-typed FIELD, however, is a
+		// plain word of memory holding a reference: reading it while another goroutine assigns it is a race
+		// (e.g. lazily created channels), whatever is later done with the channel itself.
 		return false
 	}
 	t := s.Recv()
